@@ -36,6 +36,37 @@ impl Default for NotSendSync {
 #[derive(Debug, PartialEq)]
 pub struct NoDefault(pub u8);
 
+thread_local! {
+    static BOMB_ARMED: std::cell::Cell<bool> = const { std::cell::Cell::new(false) };
+}
+
+/// A payload whose `Default::default()` panics while the simulator has armed it (an injected fault in user code, like
+/// the panicking closures of C10): the call that builds it panics, and every LATER call - on this or any other
+/// iterator of the enum - must behave as if nothing had happened.
+#[derive(Debug, PartialEq, Clone)]
+pub struct Bomb(pub u8);
+impl Default for Bomb {
+    fn default() -> Self {
+        if BOMB_ARMED.with(|b| b.get()) {
+            panic!("injected fault: Default::default() of a payload panics");
+        }
+        Bomb(0)
+    }
+}
+
+/// drains `it` with the bomb armed (the first variant holding a `Bomb` ends the drain in a caught panic)
+fn armed_drain<I: Iterator>(mut it: I, limit: usize) {
+    BOMB_ARMED.with(|b| b.set(true));
+    let _ = catch(|| {
+        for _ in 0..limit {
+            if it.next().is_none() {
+                break;
+            }
+        }
+    });
+    BOMB_ARMED.with(|b| b.set(false));
+}
+
 /// A type with an INHERENT `fn default()` next to its `Default` impl, giving different values: payload fields are
 /// `Default::default()` (the trait), whatever else the type offers under that name.
 #[derive(Debug, PartialEq, Clone)]
@@ -111,6 +142,8 @@ pub trait IterHandle {
     fn nth_back(&mut self, n: usize) -> Item;
     /// `next()` on another OS thread, spawned and joined on the spot
     fn hop_next(&mut self) -> Item;
+    /// `burst` times: a clone is drained while payload `Default`s panic (caught), then thrown away
+    fn armed_clones(&self, burst: usize);
     fn len(&self) -> usize;
     fn size_hint(&self) -> (usize, Option<usize>);
     fn dup(&self) -> Box<dyn IterHandle>;
@@ -319,6 +352,12 @@ where
     fn hop_next(&mut self) -> Item {
         let x = next_on_another_thread(&mut self.it);
         self.id(x)
+    }
+    fn armed_clones(&self, burst: usize) {
+        let limit = (self.exp.len() + 2).min(400);
+        for _ in 0..burst {
+            armed_drain(self.it.clone(), limit);
+        }
     }
     fn len(&self) -> usize {
         self.it.len()
@@ -572,6 +611,11 @@ where
         let x = next_on_another_thread(&mut self.0.it);
         self.0.id(x)
     }
+    fn armed_clones(&self, burst: usize) {
+        for _ in 0..burst.min(2) {
+            armed_drain(self.0.it.clone(), 64);
+        }
+    }
     fn len(&self) -> usize {
         self.0.it.len()
     }
@@ -760,6 +804,9 @@ pub enum Kind {
     /// `next()` executed on ANOTHER OS thread (spawned and joined on the spot, so the history stays sequential): the
     /// iterator is Send, nothing about it may depend on the thread that happens to drive it
     HopNext,
+    /// clones of the handle are drained while the `Default` of `Bomb` payloads panics (caught); k picks the burst size.
+    /// The handle itself and the model are untouched: whatever the panics leave behind must not reach later calls.
+    Armed,
 }
 
 /// (kind, script name, takes k, takes t)
@@ -807,6 +854,7 @@ pub const KINDS: &[(Kind, &str, bool, bool)] = &[
     (Kind::Position, "position", true, false),
     (Kind::Rposition, "rposition", true, false),
     (Kind::HopNext, "hop_next", false, false),
+    (Kind::Armed, "armed", true, false),
 ];
 
 #[derive(Clone, Debug, PartialEq)]
@@ -836,7 +884,7 @@ impl Op {
     }
     /// k arguments that are *counts* (where "huge" means something); targets of find/position are not
     pub fn k_is_count(&self) -> bool {
-        self.has_k() && !matches!(self.kind, Kind::VPosition | Kind::VRposition | Kind::VFind | Kind::VRfind | Kind::CloneFrom | Kind::VCycleTake | Kind::Any | Kind::All | Kind::Find | Kind::Rfind | Kind::Position | Kind::Rposition)
+        self.has_k() && !matches!(self.kind, Kind::VPosition | Kind::VRposition | Kind::VFind | Kind::VRfind | Kind::CloneFrom | Kind::VCycleTake | Kind::Any | Kind::All | Kind::Find | Kind::Rfind | Kind::Position | Kind::Rposition | Kind::Armed)
     }
     pub fn kopt(&self) -> Option<usize> {
         if self.k_is_count() {
@@ -900,7 +948,7 @@ pub const NAMES: &[&str] = &[
     "op_skip_back", "op_enumerate_back", "op_step_by_back", "op_v_last", "op_v_count", "op_v_fold", "op_v_rfold",
     "op_v_collect", "op_v_rev_collect", "op_v_position", "op_v_rposition", "op_v_find", "op_v_rfind", "op_clone_from",
     "op_v_cycle_take", "op_v_zip_rev", "op_v_chain_skip", "op_v_peekable", "op_v_iter_eq",
-    "op_any", "op_all", "op_find", "op_rfind", "op_position", "op_rposition", "op_hop_next",
+    "op_any", "op_all", "op_find", "op_rfind", "op_position", "op_rposition", "op_hop_next", "op_armed",
 ];
 const C_HUGE_FRESH: usize = 0;
 const C_HUGE_FRONT: usize = 1;
@@ -1204,6 +1252,12 @@ impl<'a> Exec<'a> {
                 Kind::Next => {
                     let s = &mut slots[hi];
                     item_op!(s.real.next(), s.model.next())
+                }
+                Kind::Armed => {
+                    let s = &slots[hi];
+                    let burst = [1usize, 2, 17, 40][k % 4];
+                    s.real.armed_clones(if n > 300 { 1 } else { burst });
+                    self.note(|| format!("{} (burst of {})", op.line(), burst));
                 }
                 Kind::HopNext => {
                     // len() here, next() over there, len() here again - with nothing in between that could refresh
@@ -1723,6 +1777,7 @@ pub fn gen_ops(rng: &mut Rng, n: usize) -> (Vec<Op>, bool) {
             ad(allow_adapters, 2),                       // position
             ad(allow_adapters && allow_back, 2),         // rposition
             1,                                           // hop_next
+            2,                                           // armed
         ];
         let kind = KINDS[rng.weighted(&w)].0;
         let mut op = Op::new(kind, h);
@@ -1733,6 +1788,8 @@ pub fn gen_ops(rng: &mut Rng, n: usize) -> (Vec<Op>, bool) {
             }
         } else if kind == Kind::CloneFrom {
             op.k = rng.usize_below(MAX_HANDLES);
+        } else if kind == Kind::Armed {
+            op.k = rng.usize_below(4);
         } else if kind == Kind::VCycleTake {
             op.k = rng.usize_below(2 * n + 3);
         } else if op.has_k() {
